@@ -166,6 +166,10 @@ def run(repo: Repo, rep: Report, tier: str) -> None:
     _aliases(repo, rep)
     from ..core import direction
     direction.report(repo, rep, "R15.8")
+    # rules of sibling properties that are necessary conditions of this one as well (same rule ids)
+    from ..core.report import Only
+    from . import c19 as _c19
+    _c19._declared_hook(repo, Only(rep, {"R19.4"}))
 
 def _oneshot(repo: Repo, rep: Report) -> None:
     n = 0
